@@ -58,7 +58,7 @@ IK_TARGETS = [
     ("side", (0.8, 0.0, 0.9, 0.0, 0.0, 0.0)),
 ]
 # targets just beyond one limit each (one value on the far side of every comparison the predicates make); the
-# relative poses are solved for from the reference in Spec.edge_targets: how far beyond is EDGE[name]
+# relative poses are solved for from the reference in edge_targets(): how far beyond is EDGE[name]
 EDGE = {"legs_hi_edge": 5e-4, "legs_lo_edge": 5e-4, "tilt_edge": 2e-4, "deflection_edge": 1e-3, "above_edge": 1e-3}
 # leg-length vectors as leg_min + f * (leg_max - leg_min)
 FK_LENS = [
@@ -173,7 +173,8 @@ def _bisect(f, lo, hi):
 
 
 def edge_targets(ref, h):
-    """Relative poses that violate exactly one family of limits by EDGE[name] (computed from the reference alone)."""
+    """Relative poses that violate the named limit by EDGE[name] (computed from the reference alone; on some geometries
+    another limit is violated as well - that is why every single-switch subset is run)."""
     B = np.eye(4)
 
     def Tz(z):
@@ -230,8 +231,11 @@ class Spec:
         if seed:
             rng = np.random.default_rng(7000 + seed)
             # ONE generic in-workspace target and ONE generic base pose
-            w = np.concatenate([rng.uniform(-0.08, 0.08, 2) * self.h, rng.uniform(1.0, 1.12, 1) * self.h,
-                                rng.uniform(-0.12, 0.12, 3)])
+            for _ in range(100):    # rejection on the explicit predicate "inside every limit", so any seed is usable
+                w = np.concatenate([rng.uniform(-0.08, 0.08, 2) * self.h, rng.uniform(1.0, 1.12, 1) * self.h,
+                                    rng.uniform(-0.12, 0.12, 3)])
+                if all(v[0] for v in ref.constraints(np.eye(4), taa_T(w)).values()):
+                    break
             self.targets["seed"] = taa_T(w)
             self.moves["seed"] = tuple(np.concatenate([rng.uniform(-2, 2, 3), rng.uniform(-0.6, 0.6, 3)]).tolist())
         self._check_palette(ref)
